@@ -82,20 +82,23 @@ Example ex_obfs4_found : obfs4_wrap [ {| or_nil := false; or_keys_ok := true; or
 Proof. vm_compute. reflexivity. Qed.
 
 (* ---- registrar *)
-Definition sub24 : ovsubnet := {| os_nil := false; os_v4 := true; os_hostbits := 8; os_prefix := 0 |}.
+Definition sub24 : ovsubnet := {| os_nil := false; os_v4 := true; os_hostbits := 8; os_prefix_id := 0%Z |}.
 Definition rpcfg_plain : rpcfg :=
   {| rp_transports := trs0; rp_overrides := true; rp_auth := true; rp_privkey_ok := true; rp_enforce := false;
-     rp_min_subnets := []; rp_min_weights := 0; rp_prefix_subnets := []; rp_prefix_weights := 0; rp_exclusions := [] |}.
+     rp_min_subnets := []; rp_min_weights := 0; rp_prefix_subnets := []; rp_prefix_weights := 0; rp_exclusions := [];
+     rp_prefix_ids := [0; 1]%Z |}.
 Definition rpcfg_enf (s : ovsubnet) : rpcfg :=
   {| rp_transports := trs0; rp_overrides := true; rp_auth := true; rp_privkey_ok := true; rp_enforce := true;
-     rp_min_subnets := [s]; rp_min_weights := 1; rp_prefix_subnets := [s]; rp_prefix_weights := 1; rp_exclusions := [sub24] |}.
+     rp_min_subnets := [s]; rp_min_weights := 1; rp_prefix_subnets := [s]; rp_prefix_weights := 1; rp_exclusions := [sub24];
+     rp_prefix_ids := [0; 1]%Z |}.
 Definition tab0 : list (N * bool * selres) := [(957, false, SelOk v4ip true); (957, true, SelOk v6ip true); (1000, false, SelErr); (1000, true, SelErr)].
 
 Example ex_rpcfg_plain_wf : wf_rpcfg rpcfg_plain.
 Proof. split; [reflexivity|discriminate]. Qed.
 Example ex_rpcfg_enf_wf : wf_rpcfg (rpcfg_enf sub24).
 Proof.
-  split; [reflexivity|]. intros _. cbn. repeat split; auto; repeat constructor; cbn; auto; intros; reflexivity.
+  split; [reflexivity|]. intros _. cbn. repeat split; auto; try (repeat constructor; fail).
+  intros id H. assert (id = 0 \/ id = 1)%Z as [->| ->] by lia; cbn; auto.
 Qed.
 (* every oracle the correspondence run builds from a table of well-formed selections is well-formed *)
 Definition entry_wf (e : N * bool * selres) : Prop :=
@@ -127,10 +130,12 @@ Example ex_bdreq_enforced_override :
   process_bd_req (rpcfg_enf sub24) (enf_oracle tab0) (Some w0) =
   Ok {| q_has4 := true; q_has6 := true; q_port := PRange 1024 65535; q_overridden := true |}.
 Proof. vm_compute. reflexivity. Qed.
-(* the configuration hypothesis is needed: a /0 override subnet makes rand.Int panic; a prefix id one
-   past the table makes overridePrefix call a method on a nil interface; an unparsed exclusion is nil *)
-Example ex_bdreq_slash0_panics :
-  process_bd_req (rpcfg_enf {| os_nil := false; os_v4 := true; os_hostbits := 32; os_prefix := 0 |}) (enf_oracle tab0) (Some w0) = Panic.
+(* the two configuration panics fixed in /repo (e9db4b8, 04f7448): a /0 override subnet and a prefix id one past
+   the table are now errors (the override is not applied) ... *)
+Definition sub_slash0 : ovsubnet := {| os_nil := false; os_v4 := true; os_hostbits := 32; os_prefix_id := 0%Z |}.
+Example ex_bdreq_slash0_no_override :
+  process_bd_req (rpcfg_enf sub_slash0) (enf_oracle tab0) (Some w0) =
+  Ok {| q_has4 := true; q_has6 := true; q_port := PRange 1024 65535; q_overridden := false |}.
 Proof. vm_compute. reflexivity. Qed.
 Definition w0_prefix : wrapper :=
   {| w_secret := Some (repeat 7 32);
@@ -138,14 +143,23 @@ Definition w0_prefix : wrapper :=
                           cs_params := Some {| a_url := UExact TPrefix; a_gen := None; a_pref := Some {| p_id := Some 1%Z; p_rand := None |}; a_dtls := None |};
                           cs_v4 := Some true; cs_v6 := None |};
      w_source := None; w_regaddr := None; w_decoyaddr := None; w_resp := None |}.
-Example ex_bdreq_prefix_id_past_table_panics :
-  process_bd_req (rpcfg_enf {| os_nil := false; os_v4 := true; os_hostbits := 8; os_prefix := 2 |}) (enf_oracle tab0) (Some w0_prefix) = Panic.
-Proof. vm_compute. reflexivity. Qed.
+Example ex_try_from_id : try_from_id [0; 1]%Z 2 = Ok false /\ try_from_id [0; 1]%Z 1 = Ok true /\ try_from_id [0; 1]%Z (-1) = Ok true
+                         /\ try_from_id [0; 1]%Z (-2) = Ok false /\ try_from_id [0; 1]%Z 2147483647 = Ok false.
+Proof. repeat split; reflexivity. Qed.
+(* ... while the code as it was panics on exactly these configurations (the model of the old code is the same
+   definition with the guard switched off) *)
+Example ex_old_slash0_panics : rand_uint32_ipv4_gen false sub_slash0 = Panic.
+Proof. reflexivity. Qed.
+Example ex_old_try_from_id_past_table_panics : try_from_id_gen false [0; 1]%Z 2 = Panic.
+Proof. reflexivity. Qed.
+(* what remains a hypothesis: the keys of DefaultPrefixes are 0..n-1 (dump-checked on every run) and exclusions parsed *)
+Example ex_try_from_id_hole_panics : try_from_id [0; 2]%Z 1 = Panic.
+Proof. reflexivity. Qed.
 
 (* ---- HTTP: statuses, and finding #8 *)
 Definition req0 (body : option wrapper) : httpreq :=
   {| h_post := true; h_remote := Some (repeat 0 10 ++ [255; 255; 127; 0; 0; 1]); h_remote_loopback := true;
-     h_xff := [[Some v6ip; None]]; h_clen := 40; h_read_ok := true; h_body := body |}.
+     h_xff := [[Some v6ip; None]]; h_clen := 40; h_blen := 40; h_read_ok := true; h_body := body |}.
 Example ex_req0_wf : wf_req (req0 None). Proof. repeat constructor; discriminate. Qed.
 Example ex_http_bidi_ok : handle_register_bidi rpcfg_plain (mk_oracle tab0 true) (Some 900) (req0 (Some w0)) = Ok (200, false).
 Proof. vm_compute. reflexivity. Qed.
@@ -159,15 +173,20 @@ Proof. vm_compute. reflexivity. Qed.
 Example ex_http_bidi_no_payload_unfixed_panics :
   api_unfixed rpcfg_plain tab0 (Some 1000) (req0 (Some w_nopayload)) = Panic.
 Proof. vm_compute. reflexivity. Qed.
+Example ex_http_body_too_large :
+  handle_register_bidi rpcfg_plain (mk_oracle tab0 true) None
+    {| h_post := true; h_remote := Some v6ip; h_remote_loopback := false; h_xff := []; h_clen := 1048577; h_blen := 1048577;
+       h_read_ok := true; h_body := Some w0 |} = Ok (400, false).
+Proof. vm_compute. reflexivity. Qed.
 Example ex_http_uni : handle_register rpcfg_plain (mk_oracle tab0 true) (req0 (Some w_nopayload)) = Ok 204.
 Proof. vm_compute. reflexivity. Qed.
 Example ex_http_method : handle_register rpcfg_plain (mk_oracle tab0 true)
-  {| h_post := false; h_remote := Some v6ip; h_remote_loopback := false; h_xff := []; h_clen := 40; h_read_ok := true; h_body := None |} = Ok 405.
+  {| h_post := false; h_remote := Some v6ip; h_remote_loopback := false; h_xff := []; h_clen := 40; h_blen := 40; h_read_ok := true; h_body := None |} = Ok 405.
 Proof. vm_compute. reflexivity. Qed.
 (* the Split hypothesis is needed *)
 Example ex_http_empty_split_panics :
   handle_register rpcfg_plain (mk_oracle tab0 true)
-  {| h_post := true; h_remote := Some v6ip; h_remote_loopback := false; h_xff := [[]]; h_clen := 40; h_read_ok := true; h_body := None |} = Panic.
+  {| h_post := true; h_remote := Some v6ip; h_remote_loopback := false; h_xff := [[]]; h_clen := 40; h_blen := 40; h_read_ok := true; h_body := None |} = Panic.
 Proof. vm_compute. reflexivity. Qed.
 
 (* ---- DNS *)
